@@ -286,6 +286,7 @@ def enumerate_creation(ctx, g: ModelGrammar, decider_cls: str, max_depth: int, c
         it.allow_recursion = True
         it.strict_keys = True
         it.strict_attrs = True       # reading an attribute the object was never given raises, as in Python
+        it.strict_iter = True
         it.while_cap = 12
         genv = {"grammar.alternatives": dict(alternatives), "grammar.all_nodes": set(all_nodes), "grammar.recursive_prods": set(recursive),
                 "grammar.starting_symbol": C(g.start)}
@@ -319,6 +320,8 @@ def enumerate_creation(ctx, g: ModelGrammar, decider_cls: str, max_depth: int, c
                 notes.append(f"script {script}: the result is not followed")
             else:
                 programs.setdefault(text_of(rv), rv)
+        if notes:
+            break        # the model does not determine a branch: nothing more can be decided for this grammar / decider / limit
         if len(failures) >= 3 or any(f_[1].startswith("RecursionError") for f_ in failures) \
                 or sum(1 for v_ in programs.values() if depth_of(v_) > max_depth + 1) >= 3:
             break        # enough definite evidence (failing scripts / programs far beyond the limit): the remaining scripts are not explored
